@@ -3,6 +3,7 @@
 //! proofs and presentations). See /verif/DESIGN.md section 5 and
 //! /verif/harness/ENGINE_GUIDE.md.
 mod c07;
+mod c08;
 mod c11;
 mod common;
 
@@ -18,7 +19,7 @@ fn floors(v: &[(&str, u64)]) -> Vec<(String, u64)> { v.iter().map(|(k, n)| (k.to
 impl Engine for E {
     fn name(&self) -> &'static str { "eng-crypto" }
 
-    fn props(&self) -> Vec<&'static str> { vec!["C11", "C07"] }
+    fn props(&self) -> Vec<&'static str> { vec!["C11", "C07", "C08"] }
 
     fn plan(&self, prop: &str, tier: Tier) -> Plan {
         let quick = tier == Tier::Quick;
@@ -106,6 +107,40 @@ impl Engine for E {
                 p.assumptions.push("the recording transcript forwards every operation to the real RandomOracle / TranscriptProtocolV1 and records an injective encoding of the operation stream; legacy-oracle streams are only compared for library-produced sequences".into());
                 p.floors = c07::floors(if quick { 1 } else { 10 });
             }
+            "C08" => {
+                p.cases = if quick { 8 } else { 200 };
+                p.timeout_s = if quick { 1200 } else { 3 * 3600 };
+                p.rule = "case = one full identity pipeline over the library's own functions: IP with n ARs (n,t cycled over all 1<=t<=n<=6), v0 (generate_pio, validate_request, verify_credentials, verify_initial_cdi) or v1 (generate_pio_v1_with_rng, validate_request_v1, verify_credentials_v1) identity object, attribute lists of 0/1/3/13 values (lengths 0..31), policy revealing none/one/all, max_accounts 4/255/random, counter 0/1/max-1/max, new or existing account, 1-3 credential keys; create_credential; verify_cdi. evaluations = judged executions: every honest stage must accept (also after a serialization round trip); every subset of >= t revokers must reconstruct g^idCredSec from the decrypted AR data (and the PRF key from the pre-identity object on part of the n<=3 pipelines), subsets of size t-1 must not; verify_cdi must reject each single-field perturbation of values / commitments / challenge / every response scalar / range proof component / account signatures / wire bytes, a different expiry/address/IP key/AR key/global context, and counter = max_accounts+1 must not yield an accepted credential. Every 4th case additionally probes an IP key of exactly the minimal length. distinct_nontrivial = distinct accepted credentials (configuration + CDI bytes)".into();
+                p.assumptions.push("fixtures come from concordium_base::id::test (feature internal-test-helpers): test_create_ip_info, test_create_ars, test_create_id_use_data; ground truth for revocation is g^idCredSec / the PRF key taken from the holder's secret data".into());
+                p.assumptions.push("generate_pio (v0), create_credential and sign_identity_object use thread_rng() inside the library: configurations are reproducible from the seed, proof randomness is not; violation records carry the CDI bytes".into());
+                let s = if quick { 1 } else { 10 };
+                let mut f: Vec<(&str, u64)> = vec![
+                    ("accept.generate_pio", 15), ("accept.generate_pio_v1", 15), ("accept.validate_request", 15), ("accept.validate_request_v1", 15),
+                    ("accept.verify_credentials", 15), ("accept.verify_credentials_v1", 15), ("accept.verify_initial_cdi", 15),
+                    ("accept.create_credential", 40), ("accept.verify_cdi", 40), ("accept.verify_cdi.after_roundtrip", 40),
+                    ("cfg.ars.1", 2), ("cfg.ars.2", 2), ("cfg.ars.3", 2), ("cfg.ars.4", 2), ("cfg.ars.5", 2), ("cfg.ars.6", 2),
+                    ("cfg.threshold.1", 2), ("cfg.threshold.2", 2), ("cfg.threshold.3", 2), ("cfg.threshold.4", 2), ("cfg.threshold.5", 2), ("cfg.threshold.6", 1),
+                    ("cfg.attrs.0", 8), ("cfg.attrs.1", 8), ("cfg.attrs.3", 8), ("cfg.attrs.13", 8),
+                    ("cfg.reveal.none", 10), ("cfg.reveal.one", 10), ("cfg.reveal.all", 10),
+                    ("cfg.counter.0", 8), ("cfg.counter.1", 8), ("cfg.counter.max-1", 8), ("cfg.counter.max", 8),
+                    ("cfg.max_accounts.4", 10), ("cfg.max_accounts.255", 10),
+                    ("cfg.account.new", 15), ("cfg.account.existing", 15),
+                    ("revoke.id_cred_pub.subset", 400), ("revoke.id_cred_pub.size_t", 150), ("revoke.id_cred_pub.size_gt_t", 250), ("revoke.id_cred_pub.below_threshold", 50),
+                    ("revoke.prf_key.subset", 10), ("revoke.prf_key.below_threshold", 4),
+                    ("perturb.counter.max+1", 20), ("perturb.initial_cdi.expiry", 15), ("probe.minimal_ps_key", 8), ("probe.minimal_ps_key.ok", 8), ("probe.minimal_ps_key.ars1", 2), ("probe.minimal_ps_key.ars2", 2), ("probe.minimal_ps_key.ars3", 2), ("probe.minimal_ps_key.attrs0", 2), ("probe.minimal_ps_key.attrs1", 2), ("probe.minimal_ps_key.attrs2", 2), ("probe.minimal_ps_key.attrs3", 2), ("reject.expected", 3000),
+                ];
+                for k in [
+                    "bytes.bitflip", "context.ar_key", "context.global", "context.ip_key", "context.new_or_existing.kind", "context.new_or_existing.value", "proofs.challenge",
+                    "proofs.commitments.cmm_attributes", "proofs.commitments.cmm_attributes.removed", "proofs.commitments.cmm_cred_counter", "proofs.commitments.cmm_max_accounts",
+                    "proofs.commitments.cmm_prf", "proofs.commitments.sharing_coeff", "proofs.proof_acc_sk.removed", "proofs.proof_acc_sk.sig", "proofs.proof_id_cred_pub",
+                    "proofs.proof_ip_sig", "proofs.proof_reg_id", "proofs.range_proof", "proofs.sig", "values.ar_data", "values.ar_data.remove", "values.ar_data.swap", "values.cred_id",
+                    "values.cred_key_info.key", "values.cred_key_info.threshold", "values.ip_identity", "values.policy.created_at", "values.policy.revealed_added",
+                    "values.policy.revealed_removed", "values.policy.revealed_value", "values.policy.valid_to", "values.threshold",
+                ] {
+                    p.floors.push((format!("perturb.cdi.{}", k), 12 * s));
+                }
+                p.floors.extend(f.drain(..).map(|(k, n)| (k.to_string(), n * s)));
+            }
             _ => {}
         }
         p
@@ -115,6 +150,7 @@ impl Engine for E {
         match ctx.prop.as_str() {
             "C11" => c11::run(ctx, out),
             "C07" => c07::run(ctx, out),
+            "C08" => c08::run(ctx, out),
             _ => out.inconclusive.push("unknown property".into()),
         }
     }
